@@ -334,7 +334,7 @@ def _run(tier, seed, info):
     ts = list(texts(3))
     if tier != 'quick':
         rng = random.Random(seed)
-        ts += rng.sample([t for t in texts(4) if len(t) == 4], 3000)
+        ts += rng.sample([t for t in texts(4) if len(t) == 4], 8000)
     if tier == 'quick':
         tspecs = ['', '>5', '^7', '.1', '*<4.2', '{<5', '世^5']
         tmodes = [MODES[0], MODES[1], MODES[4], MODES[5]]
@@ -346,7 +346,7 @@ def _run(tier, seed, info):
     fails = [{'cls': c, 'detail': d, 'witness': w} for p in parts for c, d, w in p[1]]
     items += bitem(PROP, 'texts', function='Style.__format__/__str__/__len__/apply/__repr__/from_raw, tty.descape/visual_len',
                    domain=f'texts over {{a,{{,}},:,世,U+0301,space,\\,\',[,m,1,;,newline}} x 5 styles x own spec (none, >5) x {len(tspecs)} specs x {len(tmodes)} colour modes',
-                   bound='text length <= 3 (all)' + ('' if tier == 'quick' else ' + 3000 texts of length 4 sampled by seed'),
+                   bound='text length <= 3 (all)' + ('' if tier == 'quick' else ' + 8000 texts of length 4 sampled by seed'),
                    cases=n, distinct_nontrivial=len(ts) * len(SMALL_STYLES) * 2,
                    rule='cases = evaluated (text, style, own spec, spec, mode) tuples + repr round trips; distinct = (text, style, own spec) triples',
                    exhaustive=True, samples=[{'python': style_expr('世:', SMALL_STYLES[3], '>5', MODES[0]) + "; format(s, '^7')"}], failures=fails)
